@@ -632,6 +632,8 @@ def handle_end_progs(state: TokenizerState) -> Iterator[TokenInfo]:
 
     if state.in_braces() or (not state.end_progs):  # in case the state changed above
         return
+    if state.pos != pos:  # a part of the f-string was consumed: the caller comes back for the rest of the line
+        return
 
     if (
         (state.pos == 0 and state.in_colon())  # format spec continued at the start of the line
@@ -639,7 +641,7 @@ def handle_end_progs(state: TokenizerState) -> Iterator[TokenInfo]:
     ):
         state.end_progs[-1].join_line(state)
         state.pos = state.max
-    elif state.pos == pos and not state.in_colon():  # nothing matched and the line does not continue
+    elif not state.in_colon():  # nothing matched and the line does not continue
         raise TokenError("unterminated string literal", state.end_progs[-1].start)
 
 
